@@ -1055,6 +1055,11 @@ class FuncLowerer:
         md = self.ix.byid.get(mid)
         if md is None:
             bt = u.type_of(base)
+            from cxx2c import PREDEFINED_STRUCTS
+            rt = bt[1] if bt[0] == 'ptr' else bt
+            if rt[0] == 'rec' and rt[1] in PREDEFINED_STRUCTS and e.get('name'):
+                b = self.expr(base)
+                return '%s->%s' % (b, e['name']) if e.get('isArrow') else '%s.%s' % (b, e['name'])    # plain C struct of libc
             abort('member %s of a record outside the babylon AST (%r)' % (e.get('name'), bt), e)
         k = md.get('kind')
         if k == 'FieldDecl':
@@ -1315,9 +1320,13 @@ class FuncLowerer:
             abort('array new', e)
         obj_t = ty[1]
         if placement:
-            # new (ptr) T(args): construct in place
-            place = inner[0]
-            init = inner[1] if len(inner) > 1 else None
+            # new (ptr) T(args): construct in place.  clang orders the children [initializer][placement arguments...]
+            has_init = 'initStyle' in e
+            init = inner[0] if has_init and inner else None
+            places = inner[1:] if has_init else inner
+            if len(places) != 1:
+                abort('placement new with %d placement arguments' % len(places), e)
+            place = places[0]
             t = self.fresh_tmp(ty)
             p = '(%s = (%s)(%s))' % (t, u.ctype(ty), self.expr(place))
         else:
